@@ -1,5 +1,5 @@
 """Driver family: percolation builders and estimators (C17, and the builder clauses of C11)."""
-import itertools
+import sys, itertools
 import networkx as nx
 import numpy as np
 from . import import_eon
@@ -95,12 +95,33 @@ def run_estimate_undirected(spec, props):
     fn = "estimate_SIR_prob_size"
     n = spec["n"]; es = [tuple(e) for e in spec["edges"]]; p = spec["p"]
     G = gr.mk(n, es)
-    runs = list(explore(sim, lambda orc: EoN.estimate_SIR_prob_size(G, p), cap=100000, stats=A.count))
+    # the percolated network itself is observed (the estimator calls the module's percolate_network)
+    orig_perc = sim.percolate_network
+
+    def call(orc):
+        def spy(G_, p_):
+            H_ = orig_perc(G_, p_)
+            orc.ctx.setdefault("H", []).append((sorted(H_.nodes()), sorted(tuple(sorted(e)) for e in H_.edges())))
+            return H_
+        sim.percolate_network = spy
+        try:
+            return EoN.estimate_SIR_prob_size(G, p)
+        finally:
+            sim.percolate_network = orig_perc
+    try:
+        runs = list(explore(sim, call, cap=100000, stats=A.count))
+    finally:
+        sim.percolate_network = orig_perc
     A.execs = len(runs); A.selfchecks = A.count.pop("selfchecks", 0)
+    law = {}
     for r in runs:
         if r.exc is not None:
             A.add(V("C17", fn, "undirected", "exception", "raised %r" % (r.exc,), r.chosen())); continue
-        kept = _kept_from_trace(G, r, p)
+        Hs = r.ctx.get("H", [])
+        if len(Hs) != 1 or Hs[0][0] != list(range(n)) or not set(Hs[0][1]) <= set(tuple(sorted(e)) for e in es):
+            A.add(V("C17", fn, "undirected", "percolated_network", "the estimator worked on %r, expected one percolation of G (nodes %r, a subset of the edges %r)" % (Hs, list(range(n)), es), r.chosen())); continue
+        kept = [e for e in G.edges() if tuple(sorted(e)) in set(Hs[0][1])]
+        law[tuple(Hs[0][1])] = law.get(tuple(Hs[0][1]), 0.0) + r.prob()
         Hk = gr.mk(n, kept)
         want = max(len(c) for c in nx.connected_components(Hk)) / float(n)
         # brute force, not networkx: reach
@@ -115,6 +136,14 @@ def run_estimate_undirected(spec, props):
             A.nontrivial.add(r.chosen())
         if abs(pe - want2) > TOL or abs(ar - want2) > TOL:
             A.add(V("C17", fn, "undirected", "value", "returned %r with kept edges %r; largest component fraction is %r" % ((pe, ar), kept, want2), r.chosen(), (pe, ar), want2))
+    # bond percolation: every edge kept independently with probability p
+    if not A.viol and runs:
+        M = len(es)
+        for F in set(law) | ({tuple(sorted(tuple(sorted(e)) for e in es))} if p > 0 else set()) | ({()} if p < 1 else set()):
+            want_p = (p ** len(F)) * ((1 - p) ** (M - len(F)))
+            if abs(law.get(F, 0.0) - want_p) > 1e-9:
+                A.add(V("C17", fn, "undirected", "percolation_law", "P(kept edges = %r) = %.9g, independent trials with p=%r give %.9g" % (list(F), law.get(F, 0.0), p, want_p), (), law.get(F, 0.0), want_p))
+                break
     A.sample = {"spec": spec}
     return A.result(props)
 
@@ -225,6 +254,12 @@ def run_builder_xi(spec, props):
     nodes = list(range(n))
     xi = {u: 10 + u for u in nodes}
     zeta = {u: 20 + u for u in nodes}
+    homog = bool(spec.get("homogeneous"))
+    if homog:
+        # a homogeneous population: everybody has the same infectiousness and susceptibility value; the (stochastic) rule is
+        # still asked once per ordered pair and may answer differently each time
+        xi = {u: 10 for u in nodes}; zeta = {u: 20 for u in nodes}
+    pair_order = [(u, v) for u in G.nodes() for v in G.neighbors(u)]
     container = spec.get("container", "dict")
     if container == "defaultdict":
         from collections import defaultdict
@@ -253,6 +288,16 @@ def run_builder_xi(spec, props):
 
         def transmission(x, z):
             k = (int(x) - 10, int(z) - 20)
+            if homog:
+                # which pair is being asked about is read from the caller (its loop variables u, v), else from the call order
+                loc = sys._getframe(1).f_locals
+                cnt = orc.ctx.setdefault("ncalls", [0]); cnt[0] += 1
+                if "u" in loc and "v" in loc and (loc["u"], loc["v"]) in pair_order:
+                    k = (loc["u"], loc["v"])
+                else:
+                    k = pair_order[(cnt[0] - 1) % len(pair_order)] if pair_order else (0, 0)
+                if k in tab:
+                    orc.ctx["asked_twice"] = k
             if k not in tab:
                 tab[k] = orc.pick("transmission", [True, False], info=("transmission",) + k)
             # the rule's answer is a truth value: Python bool, numpy.bool_ (what comparisons of numpy floats give) or 0/1
@@ -271,6 +316,8 @@ def run_builder_xi(spec, props):
         if r.exc is not None:
             A.add(V("C17", fn, "xi_zeta", "exception", "raised %r" % (r.exc,), pre)); continue
         tab = r.ctx["tab"]
+        if r.ctx.get("asked_twice"):
+            A.add(V("C17", fn, "xi_zeta", "rule_asked_twice", "transmission rule consulted more than once for the pair %r" % (r.ctx["asked_twice"],), pre)); continue
         bad = [k for k in tab if not G.has_edge(*k)]
         if bad:
             A.add(V("C17", fn, "xi_zeta", "rule_args", "transmission rule consulted for non-adjacent pair %r" % (bad[0],), pre)); continue
@@ -463,6 +510,7 @@ def specs_c17(tier):
             for cont in ("dict", "defaultdict", "lazy", "list", "array"):
                 out.append(dict(kind="xi", fn=fn, n=n, edges=es, container=cont))
             if n <= 3:
+                out.append(dict(kind="xi", fn=fn, n=n, edges=es, container="dict", homogeneous=True))
                 for rt in ("npbool", "int"):
                     out.append(dict(kind="xi", fn=fn, n=n, edges=es, container="dict", rule_returns=rt))
         m = [0, 1, "inf"] if len(es) >= 3 else [0, 1, 2, "inf"]
